@@ -253,3 +253,47 @@ func resultsOf(ret *ssa.Return) []ssa.Value {
 	}
 	return out
 }
+
+// VRet is one way out of a function: a Return instruction, or — where several exits were merged
+// into one Return whose results are Phis (a helper spliced in front of `return s, err`, named
+// results assigned on several ways) — one incoming way of it, with the values that way carries
+// and the block whose facts hold on it.
+type VRet struct {
+	Ret     *ssa.Return
+	Block   *ssa.BasicBlock
+	Results []ssa.Value
+}
+
+func virtualReturns(fn *ssa.Function) []VRet {
+	var out []VRet
+	var split func(v VRet, depth int)
+	split = func(v VRet, depth int) {
+		b := v.Block
+		merged := false
+		for _, res := range v.Results {
+			if ph, ok := res.(*ssa.Phi); ok && ph.Block() == b {
+				merged = true
+			}
+		}
+		// only blocks that do nothing but merge (Phis, then the return or a jump to it) are split:
+		// anything else between merge and return belongs to every way alike
+		if !merged || depth > 3 {
+			out = append(out, v)
+			return
+		}
+		for i, pr := range b.Preds {
+			nv := VRet{Ret: v.Ret, Block: pr, Results: make([]ssa.Value, len(v.Results))}
+			for j, res := range v.Results {
+				nv.Results[j] = res
+				if ph, ok := res.(*ssa.Phi); ok && ph.Block() == b && i < len(ph.Edges) {
+					nv.Results[j] = ph.Edges[i]
+				}
+			}
+			split(nv, depth+1)
+		}
+	}
+	for _, ret := range returnsOf(fn) {
+		split(VRet{Ret: ret, Block: ret.Block(), Results: resultsOf(ret)}, 0)
+	}
+	return out
+}
